@@ -575,4 +575,23 @@ theorem history_refines_ci_map (ops : List (Op Name κ)) (r : Resp κ) (b : Name
   · rfl
   · rw [← habs ops r]; rfl
 
+
+/-- **what `resp.headers` returns after any history**: a mapping whose keys are pairwise distinct normalised names, none of them
+    Set-Cookie, and in which every spelling `b` of a plain header looks up exactly what the case-insensitive map specification holds
+    (= what `get_header(b)` returns) -/
+theorem headers_copy_after_history (ops : List (Op Name κ)) :
+    (keys (headersCopy (run c ({} : Resp κ) ops))).Nodup ∧ c.cookie ∉ keys (headersCopy (run c ({} : Resp κ) ops)) ∧
+    ∀ b : Name, c.norm b ≠ c.cookie →
+      lookup (headersCopy (run c ({} : Resp κ) ops)) (c.norm b) = ops.foldl (specOp c) (absMap ({} : Resp κ)) (c.norm b) ∧
+      getHeader c (run c ({} : Resp κ) ops) b = some (lookup (headersCopy (run c ({} : Resp κ) ops)) (c.norm b)) := by
+  have hw := wf_run c ops ({} : Resp κ) (wf_empty c)
+  refine ⟨hw.nodup, hw.nocookie, fun b hb => ?_⟩
+  have h := history_refines_ci_map c ops ({} : Resp κ) b
+  rw [if_neg hb] at h
+  have hg : getHeader c (run c ({} : Resp κ) ops) b = some (lookup (headersCopy (run c ({} : Resp κ) ops)) (c.norm b)) := by
+    unfold getHeader headersCopy; rw [if_neg hb]
+  refine ⟨?_, hg⟩
+  rw [hg] at h
+  exact Option.some.inj h
+
 end Hd
